@@ -4852,6 +4852,7 @@ def translate(repo, overrides):
         L.append("")
     L += seq_section(toks)  # third extension: sequences (Vec, iterators, loops, from_fn, library calls as EXTERNs)
     L += sched_section(toks, lambda rel: raw_of[rel])  # [schedule extension] fourth increment: schedule.rs
+    L += dated2_section(toks)  # [dated2 extension] fifth increment: the interval consumers of date_filter.rs
     L.append("end OH.Generated.Arith")
     return "\n".join(L).replace("import OH.Model.RustInt\n", "import OH.Model.RustInt\nimport OH.Model.RustSeq\nimport OH.Model.RustVec\n", 1) + "\n"
 
@@ -7004,6 +7005,215 @@ def sched_section(toks, raw):
                                       externs=dict(g.externs), fuel=g.fuel)
     L += ["end Sched", ""]
     return L
+
+
+# ------------------------------------------------------------------------------------------------
+# [dated2 extension] fifth increment: the interval consumers of opening-hours/src/filter/date_filter.rs (DESIGN §8.9,
+# notes/RS2LEAN5-dated2.md).  `next_change_from_intervals`, `is_open_from_intervals`: free functions whose parameter
+# `mut intervals: impl Iterator<Item = RangeInclusive<NaiveDate>>` is the LIST of the items (already evaluated: the
+# theorems about the callers have to say how the items are produced).  A front end on top of the schedule one
+# (`Dated2Parser` extends `SchedParser`, `Dated2Gen` extends `SchedGen`); here `NaiveDate` is concrete: `Time` is an
+# abbreviation of `Int` (the day number, as in chrono mode) inside `namespace Dated2`, chrono's `succ_opt` and the crate
+# constant `DATE_END.date()` have their RustChrono.lean meaning.  New constructs:
+#  * `let Some(x) = e else { ..; return v };` followed by the rest of the block: `match e with | none => else-block |
+#    some x => rest` (the else-block has to END with `return`: it diverges, as rustc requires);
+#  * `it.find(|x| pure bool)` on an iterator-of-a-list VARIABLE that is not mentioned anywhere else in the function (what
+#    `find` leaves in the iterator is dropped): `List.find?`;
+#  * `r.start()`, `r.end()`, `r.contains(&x)` on a `RangeInclusive<NaiveDate>`, `start..=end` of two dates;
+#  * `d.succ_opt()` on a date, `DATE_END.date()` (imports checked).
+# Anything else is an error naming file:line, as everywhere.
+D2_TARGETS = ["is_open_from_intervals", "next_change_from_intervals", "is_open_from_bounds", "next_change_from_bounds"]
+# untranslated functions of date_filter.rs called by the targets: name -> (item types of the `impl IntoIterator` arguments,
+# result type, Lean type of the NAMED function parameter `ext_<name>` of the generated definition)
+D2_FN_HOLES = {"intervals_from_bounds": ([S_TIME, S_TIME], T("iter", T("rangeincl", S_TIME)), "List Time → List Time → List (RangeInclusive Time)")}
+D2_IMPORTS = {("chrono", "NaiveDate"), ("crate::opening_hours", "DATE_END"), ("std::ops", "RangeInclusive")}
+D2_BINDER = ""
+
+_seq_lty_before_d2, _seq_show_before_d2 = seq_lty, seq_show
+
+
+def seq_lty(t, top=True):  # noqa: F811  [dated2 extension] RangeInclusive<T>
+    if t is not None and t[0] == "rangeincl":
+        s_ = f"RangeInclusive {seq_lty(t[1], False)}"
+        return s_ if top else f"({s_})"
+    return _seq_lty_before_d2(t, top)
+
+
+D2_ACTIVE = [False]  # inside `dated2_section` the ordered abstract type of the schedule front end is `NaiveDate`
+
+
+def seq_show(t):  # noqa: F811
+    if t is not None and t[0] == "rangeincl":
+        return f"RangeInclusive<{seq_show(t[1])}>"
+    if t is not None and t[0] == "atime" and D2_ACTIVE[0]:
+        return "NaiveDate"
+    if t is not None and t[0] in ("iter", "intoiter") and D2_ACTIVE[0]:
+        return f"impl {'Into' if t[0] == 'intoiter' else ''}Iterator<Item = {seq_show(t[1])}>"
+    return _seq_show_before_d2(t)
+
+
+class Dated2Parser(SchedParser):
+    def type_(self):
+        tk = self.peek()
+        if tk.text == "NaiveDate":
+            self.i += 1
+            return S_TIME
+        if tk.text == "RangeInclusive":
+            self.i += 1
+            self.need_use("RangeInclusive", tk)
+            self.eat("<")
+            inner = self.type_()
+            self.close_angle()
+            return T("rangeincl", inner)
+        return SchedParser.type_(self)
+
+    def seq_let(self):
+        if self.peek(1).text == "Some" and self.peek(2).text == "(":
+            line = self.eat("let").line
+            name, by_ref, _ = self.some_pattern()
+            if by_ref:
+                fail(f"{self.f}:{line}", "`ref` in a `let .. else` pattern is outside the translated subset")
+            self.eat("=")
+            e = self.expr(nostruct=True)
+            if not self.at("else"):
+                fail(self.where(), "`let Some(..) = e;` without `else` is outside the translated subset")
+            self.i += 1
+            els = self.block()
+            self.eat(";")
+            if not els.stmts or els.stmts[-1].kind != "ret" or els.tail is not None:
+                fail(f"{self.f}:{els.line}", "the `else` block of `let .. else` has to end with `return ..;`")
+            return Node("letsomeelse", line, name=name, e=e, els=els)
+        return SchedParser.seq_let(self)
+
+    def block(self):
+        b = SchedParser.block(self)
+        # `let Some(x) = e else { .. return v; }; REST` is `match e { None => { .. return v; }, Some(x) => { REST } }`
+        for i, s_ in enumerate(b.stmts):
+            if s_.kind == "letsomeelse":
+                rest = Node("block", s_.line, stmts=b.stmts[i + 1:], tail=b.tail)
+                m = Node("matchopt", s_.line, scrut=s_.e, arms=[("none", None, s_.els), ("some", s_.name, rest)])
+                return Node("block", b.line, stmts=b.stmts[:i], tail=m)
+        return b
+
+
+class Dated2Gen(SchedGen):
+    def count_ident(self, node, name):
+        if isinstance(node, Node):
+            n = 1 if (node.kind == "var" and node.name == name) else 0
+            return n + sum(self.count_ident(v, name) for v in node.__dict__.values())
+        if isinstance(node, (list, tuple)):
+            return sum(self.count_ident(v, name) for v in node)
+        return 0
+
+    def cg(self, e, env, frame, k):
+        if e.kind == "range" and e.incl:
+            w = self.w(e)
+            return self.cg(e.l, env, frame, lambda a, ta, en: self.cg(e.r, en, frame, lambda b, tb, en2: k(f"RangeInclusive.mk {atom(a)} {atom(b)}", T("rangeincl", S_TIME), en2)
+                           if seq_unref(ta) == S_TIME and seq_unref(tb) == S_TIME else fail(w, f"an inclusive range of {seq_show(ta)} ..= {seq_show(tb)}")))
+        return SchedGen.cg(self, e, env, frame, k)
+
+    def call(self, e, env, frame, k):
+        w, p = self.w(e), "::".join(e.path)
+        if p in D2_FN_HOLES:
+            # an untranslated function of the same file: a NAMED function parameter (what it does is outside the definition)
+            pts, rt, lt = D2_FN_HOLES[p]
+            if frame.kind == "pure":
+                fail(w, "a call inside a closure is outside the translated subset")
+
+            def got(a, en):
+                if len(a) != len(pts) or any(seq_unref(ta) is None or seq_unref(ta)[0] not in ("intoiter", "iter", "list") or seq_unref(ta)[1] != pt or self.lazy(seq_unref(ta))
+                                             for (_, ta), pt in zip(a, pts)):
+                    fail(w, f"type mismatch in the call of the untranslated `{p}`")
+                x = self.ext("ext_" + p, lt)
+                return k(f"{x} " + " ".join(atom(t) for t, _ in a), rt, en)
+            return self.args(e.args, env, frame, got)
+        if len(e.path) == 1 and ("date_filter", p) in self.sigs:
+            return self.call_translated(e, "date_filter", p, None, e.args, env, frame, k)
+        return SchedGen.call(self, e, env, frame, k)
+
+    def method(self, e, env, frame, k):
+        w, name, recv = self.w(e), e.name, e.e
+        while recv.kind == "paren":
+            recv = recv.e
+        if name == "date" and recv.kind == "var" and recv.name == "DATE_END" and "DATE_END" not in env:
+            if e.args:
+                fail(w, "`DATE_END.date()` takes no argument")
+            if ("crate::opening_hours", "DATE_END") not in self.uses:
+                fail(w, "`DATE_END` is read as `crate::opening_hours::DATE_END`, but the file does not import it from there")
+            return k("Chrono.DATE_END", S_TIME, env)
+        if name in ("find", "start", "end", "contains", "succ_opt"):
+            def on(t, ty, en):
+                ty = seq_unref(ty)
+                k0 = ty[0] if ty else None
+                if name == "find" and k0 == "iter" and not self.lazy(ty):
+                    if recv.kind != "var" or not en[recv.name].mut or self.count_ident(self.node.body, recv.name) != 1:
+                        fail(w, "`.find(..)` is translated on a `mut` iterator variable that is not mentioned anywhere else (what is left of it is dropped)")
+                    if len(e.args) != 1:
+                        fail(w, "`.find()` takes one closure")
+                    f, rt = self.closure_fun(e.args[0], [ty[1]], en)
+                    if seq_unref(rt) != BOOL:
+                        fail(w, "the closure of `.find()` does not return a bool")
+                    return k(f"List.find? {f} {atom(t)}", T("opt", ty[1]), en)
+                if name in ("start", "end") and k0 == "rangeincl":
+                    if e.args:
+                        fail(w, f"`.{name}()` takes no argument")
+                    return k(f"{atom(t)}.{lname(name)}", ty[1], en)
+                if name == "contains" and k0 == "rangeincl" and ty[1] == S_TIME:
+                    if len(e.args) != 1:
+                        fail(w, "`.contains()` takes one argument")
+                    return self.cg(e.args[0], en, frame, lambda a, ta, en2: k(f"(decide ({atom(t)}.start ≤ {atom(a)}) && decide ({atom(a)} ≤ {atom(t)}.«end»))", BOOL, en2)
+                                   if seq_unref(ta) == S_TIME else fail(w, f"`.contains(..)` of a {seq_show(ta)}"))
+                if name == "succ_opt" and ty == S_TIME:
+                    if e.args:
+                        fail(w, "`.succ_opt()` takes no argument")
+                    return k(f"Chrono.succ_opt {atom(t)}", T("opt", S_TIME), en)
+                fail(w, f"method `.{name}()` on {seq_show(ty)} is outside the translated subset (dated2 functions)")
+            return self.cg(recv, env, frame, on)
+        return SchedGen.method(self, e, env, frame, k)
+
+
+def dated2_section(toks):
+    """the Lean text (lines) of the D2_TARGETS"""
+    global SCHED_BINDER
+    tk = toks(F_DF)
+    uses = file_uses(tk)
+    for imp in sorted(D2_IMPORTS):
+        if imp not in uses:
+            fail(F_DF, f"`use {imp[0]}::{imp[1]};` not found: the name `{imp[1]}` is read as that item")
+    L = ["/-! ### [dated2 extension] the interval consumers of opening-hours/src/filter/date_filter.rs -/", "", "namespace Dated2", "",
+         "/-- `chrono::NaiveDate`: its day number (OH/Model/RustChrono.lean) -/", "abbrev Time : Type := Int", ""]
+    saved, SCHED_BINDER = SCHED_BINDER, D2_BINDER
+    D2_ACTIVE[0] = True
+    sigs = {}
+    find_impl_fns(tk, F_DF, None, None, sorted(D2_FN_HOLES))  # the untranslated callees have to be functions of this file
+    try:
+        for rname in D2_TARGETS:
+            where = find_impl_fns(tk, F_DF, None, None, [rname])
+            p = Dated2Parser(tk, F_DF, set(), uses=std_uses(tk))
+            p.self_t = None
+            p.item_t = None
+            p.i = where[rname]
+            node = p.seq_fn()
+            for j, (pn, pt, mut) in enumerate(node.params):
+                if pt is not None and pt[0] == "iterret":
+                    node.params[j] = (pn, T("iter", pt[1]), mut)  # `impl Iterator<Item = T>` as a parameter: the list of its items
+            g = Dated2Gen(F_DF, "date_filter", node, None, {}, sigs, uses, {})
+            g.lean_name = rname
+            lines = g.gen()
+            for n in D2_TARGETS:  # the callee of `call_translated` is `<impl type>.<name>`: free functions here
+                lines = [x if x.startswith("/--") else x.replace("(date_filter." + n + " ", "(" + n + " ") for x in lines]
+            if set(g.externs) - {"ext_" + n for n in D2_FN_HOLES}:
+                fail(F_DF, f"{rname}: unexpected named parameters {sorted(g.externs)}")
+            sigs[("date_filter", rname)] = dict(has_self=False, mut_self=False, params=[pt for _, pt, _ in node.params], ret=node.ret,
+                                                externs=dict(g.externs), fuel=g.fuel)
+            L += [x.replace("  (", " (", 1) if x.startswith("def ") else x for x in lines] + [""]
+    finally:
+        SCHED_BINDER = saved
+        D2_ACTIVE[0] = False
+    L += ["end Dated2", ""]
+    return L
+
+# ---- end of [dated2 extension] ------------------------------------------------------------------
 
 
 def main(argv):
